@@ -1,17 +1,18 @@
 #!/usr/bin/env bash
-# usage: seedloop.sh <env> "<glob of sd dirs>"
-# evaluates every seeded patch found under /tmp/sd-*/out/<ID>/patch.diff once (needs meta.json present), in env ag-mut
-ENVN=${1:-mut}; GLOB=${2:-/tmp/sd-*}
+# usage: seedloop.sh <env> <sd-dir>...   evaluates every seeded patch under <sd-dir>/out/<ID>/ once, in env /tmp/ag-<env>
+ENVN=$1; shift
 RES=/verif/notes/seed-results.txt
 touch $RES
 while true; do
-  for m in $GLOB/out/*/meta.json; do
-    [ -f "$m" ] || continue
-    d=$(dirname "$m"); id=$(basename "$d"); key="$d"
-    [ -f "$d/patch.diff" ] || continue
-    grep -q "^$key " $RES && continue
-    out=$(/verif/tools/seedcheck.py $ENVN "$d/patch.diff" "$id" quick 2>&1 | tail -1)
-    echo "$key $out" >> $RES
+  for sd in "$@"; do
+    for m in $sd/out/*/meta.json; do
+      [ -f "$m" ] || continue
+      d=$(dirname "$m"); id=$(basename "$d")
+      [ -f "$d/patch.diff" ] || continue
+      grep -q "^$d " $RES && continue
+      out=$(/verif/tools/seedcheck.py $ENVN "$d/patch.diff" "$id" quick 2>&1 | tail -1)
+      echo "$d $out" >> $RES
+    done
   done
   [ -f /tmp/ag-$ENVN/stop ] && break
   sleep 60
